@@ -515,6 +515,61 @@ def lambda_head(ctx, rid, core, G, scope_fns):
         ctx.inst(rid, "Lambda#head", None, "no printer arm for Expr::Lambda was found", None)
 
 
+def param_markers(ctx, rid, core, scope_fns, declare=True):
+    """a parameter is printed with the marker of its kind - `name`, `name?`, `...name` - wherever a function's parameter list is
+    printed (shared by C04 / C05 / C07: a reloaded or reformatted function accepts the argument counts the original accepted)"""
+    if declare:
+        ctx.rule(rid, "every printer of a function's parameter list writes each parameter with the marker of its kind (`name`, `name?`, `...name`): the per-parameter printers have exactly these three templates, and no parameter list is printed from the bare names", floor=4)
+    want = {"Required": "{}", "Optional": "{}?", "Rest": "...{}"}
+    pf = {k: f for k, f in core.hir.items() if any(("::%s::" % s_) in k for s_ in scope_fns) and "::tests::" not in k and f.get("body") is not None}
+    n_single = 0
+    for name, f in sorted(pf.items()):
+        ins = f.get("inputs") or []
+        if not (len(ins) == 1 and "values::LambdaArg" in ins[0] and "[" not in ins[0] and "Vec<" not in ins[0] and f.get("output") == "alloc::string::String"):
+            continue
+        n_single += 1
+        ms = H.matches_on(f["body"], "values::LambdaArg")
+        if len(ms) != 1:
+            for k_ in sorted(want):
+                ctx.inst(rid, "%s[%s]" % (name.replace(CORE, ""), k_), None, "the printer is not a single match on the parameter kind", H.loc(f["body"]))
+            continue
+        covered = {}
+        for a in ms[0]["arms"]:
+            vs = [H.last(v) for v in H.pat_variants(a["pat"])]
+            ks = [v for v in vs if v in want] or ([k_ for k_ in want if k_ not in covered] if H.kind(a["pat"]) in ("Wild", "Bind") else [])
+            b = H.strip(a["body"])
+            while H.kind(b) == "Block" and not b["stmts"] and b.get("expr") is not None:
+                b = H.strip(b["expr"])
+            tpl = None
+            if H.kind(b) == "Macro" and b.get("name") == "format":
+                ts = H.macro_templates(core, b)
+                tpl = H.template_text(ts[0]) if len(ts) == 1 else None
+            elif H.kind(b) == "MethodCall" and b["name"] in ("clone", "to_string", "to_owned", "into"):
+                r = H.strip(b["recv"])
+                if H.path_local(r) is not None or (H.kind(r) == "MethodCall" and r["name"] == "get_name"):
+                    tpl = "{}"
+            for k_ in ks:
+                covered.setdefault(k_, (tpl, a))
+        for k_ in sorted(want):
+            tpl, a = covered.get(k_, (None, None))
+            ctx.inst(rid, "%s[%s]" % (name.replace(CORE, ""), k_), None if tpl is None else tpl == want[k_],
+                     "a %s parameter is printed as %r (the grammar reads %r)" % (k_, tpl, want[k_]), H.loc(a["body"]) if a else H.loc(f["body"]))
+    ctx.inst(rid, "parameter-printers#found", n_single >= 1, "%d per-parameter printer(s) found" % n_single, None)
+    # a parameter list assembled from get_name() has lost the markers
+    n_bare = 0
+    for name, f in sorted(pf.items()):
+        if (f.get("output") or "") != "alloc::string::String":
+            continue
+        for x in H.walk(f["body"]):
+            if H.kind(x) == "MethodCall" and x["name"] == "map" and x.get("args") and H.kind(H.strip(x["args"][0])) == "Closure":
+                clo = H.strip(x["args"][0])
+                gets = [y for y in H.walk(clo["body"]) if H.kind(y) == "MethodCall" and y["name"] == "get_name" and "LambdaArg" in (y.get("recv_ty") or H.strip(y["recv"]).get("ty") or "")]
+                if gets and "String" in (H.strip(clo["body"]).get("ty") or ""):
+                    n_bare += 1
+                    ctx.inst(rid, "%s#parameters-by-bare-name" % name.replace(CORE, ""), False, "a parameter list is built from get_name() alone (%s): optional and rest parameters are emitted as required ones" % H.loc(gets[0]), H.loc(x))
+    ctx.inst(rid, "parameters-by-bare-name#none", n_bare == 0, "parameter lists printed from bare names: %d" % n_bare, None)
+
+
 def comment_order(ctx, rid, core, G):
     ctx.rule(rid, "for every member of a list, record or do-block the formatter emits the leading comments, then the member, then its trailing comment, in that order", floor=3)
     I_, pf = interp(core)
